@@ -574,3 +574,173 @@ Qed.
 Corollary summary_sound_now K cr b : recover_total cr -> recover_len cr ->
   verify_bid_in fixes_now (summary K cr b) = class_of (verify_bid K cr b).
 Proof. intros NP RL. exact (summary_sound K cr b fixes_now NP RL). Qed.
+
+(* ================================================================================================== *)
+(* Round A3: the frame reader as a whole, the discovery worker semaphore, the connect wrappers.        *)
+(* ================================================================================================== *)
+From MevVerif Require lib.Varint proofs.Blocklist_proofs.
+Module FrameReader.
+Import Varint Framing Framing_proofs.
+Lemma firstn_len_bound (n mx : N) (l : bytes) : n <= mx -> len_of (firstn (N.to_nat n) l) <= mx.
+Proof.
+  intros M. unfold len_of. rewrite firstn_length.
+  pose proof (Nat.le_min_l (N.to_nat n) (length l)) as L.
+  remember (Nat.min (N.to_nat n) (length l)) as m. clear Heqm. lia.
+Qed.
+
+Lemma parse1_frame_bound buf p rest : parse1 buf = Frame p rest -> len_of p <= max_msg.
+Proof.
+  unfold parse1. destruct (Nat.ltb (length buf) len_size); [discriminate|].
+  destruct (unbe (firstn len_size buf) =? 0) eqn:Z.
+  - intros H. injection H as Hp _. rewrite <- Hp. rewrite max_msg_value. discriminate.
+  - destruct (max_msg <? unbe (firstn len_size buf)) eqn:M; [discriminate|].
+    destruct (len_of (skipn len_size buf) <? unbe (firstn len_size buf)); [discriminate|].
+    intros H. injection H as Hp _. rewrite <- Hp. apply firstn_len_bound. apply N.ltb_ge. exact M.
+Qed.
+
+Lemma drain_bound f : forall buf fs r d, drain f buf = (fs, r, d) -> Forall (fun p => len_of p <= max_msg) fs.
+Proof.
+  induction f as [|f IH]; intros buf fs r d H; cbn [drain] in H.
+  - inversion H; subst. constructor.
+  - destruct (parse1 buf) as [p rest| |] eqn:P.
+    + destruct (drain f rest) as [[fs1 r1] d1] eqn:D. inversion H; subst.
+      constructor; [eapply parse1_frame_bound; eauto|eapply IH; eauto].
+    + inversion H; subst. constructor.
+    + inversion H; subst. constructor.
+Qed.
+
+Definition WF (s : rstate) : Prop := Stable s /\ Forall (fun p => len_of p <= max_msg) (out s).
+
+Lemma feed_wf s c : WF s -> WF (feed s c).
+Proof.
+  intros [St B]. destruct (dead s) eqn:D.
+  - assert (E : feed s c = s) by (unfold feed; rewrite D; reflexivity). rewrite E. split; assumption.
+  - destruct (drain_all (rbuf s ++ c)) as [[fs r] d] eqn:E.
+    destruct (feed_spec s c fs r d St D E) as [Ef St']. split; [exact St'|].
+    rewrite Ef. cbn [out]. apply Forall_app. split; [exact B|]. unfold drain_all in E. eapply drain_bound; eauto.
+Qed.
+
+Lemma rinit_wf : WF rinit.
+Proof. split; [apply rinit_stable|constructor]. Qed.
+
+Lemma fold_feed_wf cs : forall s, WF s -> WF (fold_left feed cs s).
+Proof. induction cs as [|c cs IH]; intros s H; cbn [fold_left]; [exact H|]. apply IH, feed_wf, H. Qed.
+
+Theorem frame_reader_total (cs : list bytes) :
+  let s := feed_chunks cs in
+  Stable s /\
+  Forall (fun p => len_of p <= max_msg) (out s) /\
+  Forall (fun p => read_msg_outcome p <> Panic) (out s) /\
+  out s = out (feed_all (concat cs)) /\ dead s = dead (feed_all (concat cs)).
+Proof.
+  cbv zeta. destruct (fold_feed_wf cs rinit rinit_wf) as [St B]. fold (feed_chunks cs) in St, B.
+  split; [exact St|]. split; [exact B|]. split.
+  - apply Forall_forall. intros p _. unfold read_msg_outcome. destruct (read_msg p); discriminate.
+  - destruct (chunking cs) as (A & C & _). split; assumption.
+Qed.
+
+(* non-vacuity: a zero-length frame, a frame with garbage, an oversized prefix and a truncated tail in one stream,
+   cut into odd chunks: two frames delivered, then the reader is stuck *)
+Example frame_reader_example :
+  let s := feed_chunks [[0;0]; [0;0;0;0;0]; [2;255]; [255;1;0;0;0;9;9]] in
+  out s = [[]; [255;255]] /\ dead s = true.
+Proof. vm_compute. split; reflexivity. Qed.
+End FrameReader.
+
+Definition pool_inv (cap : N) (s : pool) : Prop := held s = workers s /\ held s <= cap.
+
+Lemma pool_step_inv cap s e : pool_inv cap s -> exists s', pool_step cap false s e = Ok s' /\ pool_inv cap s'.
+Proof.
+  intros [E B]. destruct e; cbn [pool_step].
+  - eexists; split; [reflexivity|]. split; cbn; assumption.
+  - eexists; split; [reflexivity|]. split; assumption.
+  - destruct ((0 <? queued s) && (held s <? cap)) eqn:C.
+    + apply andb_prop in C. destruct C as [_ C]. apply N.ltb_lt in C.
+      eexists; split; [reflexivity|]. split; cbn; lia.
+    + eexists; split; [reflexivity|]. split; assumption.
+  - destruct (workers s =? 0) eqn:W.
+    + eexists; split; [reflexivity|]. split; assumption.
+    + apply N.eqb_neq in W. assert (held s =? 0 = false) as H by (apply N.eqb_neq; lia). rewrite H.
+      eexists; split; [reflexivity|]. split; cbn; lia.
+Qed.
+
+Theorem semaphore_balanced cap evs :
+  exists s, pool_run cap false pool_init evs = Ok s /\ held s = workers s /\ held s <= cap.
+Proof.
+  assert (G : forall evs s, pool_inv cap s -> exists s', pool_run cap false s evs = Ok s' /\ pool_inv cap s').
+  { clear evs. induction evs as [|e r IH]; intros s I; cbn [pool_run].
+    - exists s. split; [reflexivity|exact I].
+    - destruct (pool_step_inv cap s e I) as (s1 & E & I1). rewrite E. apply IH, I1. }
+  destruct (G evs pool_init) as (s & E & I); [split; cbn; lia|]. exists s. split; [exact E|exact I].
+Qed.
+
+(* the handler giving a slot back that it never got (the seeded variants): the surplus release surfaces when the
+   real holders finish *)
+Lemma semaphore_release_on_cancel_refuted :
+  pool_run 10 true pool_init [PSend; PAcquire; PCancel; PDone] = Panic.
+Proof. vm_compute. reflexivity. Qed.
+
+Example semaphore_balanced_example :
+  pool_run 2 false pool_init [PSend; PSend; PSend; PAcquire; PAcquire; PAcquire; PCancel; PDone; PAcquire; PDone; PDone]
+  = Ok {| held := 0; workers := 0; queued := 0 |}.
+Proof. vm_compute. reflexivity. Qed.
+
+Lemma connect_wrapper_ok K cr mkpeer nd a : recover_total cr -> recover_len cr ->
+  exists nd', connect_wrapper K cr mkpeer nd a = Ok nd'.
+Proof.
+  intros NP RL. unfold connect_wrapper.
+  assert (H : exists r, (if at_inbound a
+            then handle_outcome K cr (at_cfg a) (at_pres a) (at_registered a) (at_wfail a) (at_script a)
+            else handshake_outcome K cr (at_cfg a) (at_pres a) (at_registered a) (at_wfail a) (at_script a)) = Ok r).
+  { destruct (at_inbound a); unfold handle_outcome, handshake_outcome, hs_guard;
+      (rewrite existsb_all_false; [eexists; reflexivity|]);
+      intros [sig data]; cbn [fst snd]; pose proof (signer_verify_no_panic K cr sig data NP RL) as Hs;
+      destruct (signer_verify K cr sig data); try reflexivity; contradiction. }
+  destruct H as [r ->]. destruct (Handshake.res r); eexists; reflexivity.
+Qed.
+
+Theorem connect_wrappers_no_panic K cr mkpeer l : recover_total cr -> recover_len cr ->
+  forall nd, exists nd', connect_run K cr mkpeer nd l = Ok nd'.
+Proof.
+  intros NP RL. induction l as [|a r IH]; intros nd; cbn [connect_run].
+  - eexists; reflexivity.
+  - destruct (connect_wrapper_ok K cr mkpeer nd a NP RL) as [nd1 ->]. apply IH.
+Qed.
+
+Lemma block_after_other inbound m p now cl q : q <> p ->
+  Blocklist.lookup q (block_after inbound m p now cl) = Blocklist.lookup q m.
+Proof.
+  intros Hq. unfold block_after.
+  destruct (Handshake.block_effects _ cl) as [|e [|e2 l2]]; try reflexivity; destruct e; try reflexivity.
+  apply Blocklist_proofs.lookup_block_other. exact Hq.
+Qed.
+
+(* a refused attempt leaves the registry as it was and touches at most the block entry of that remote: every
+   other peer is looked up, gated and enrolled exactly as before *)
+Theorem refusal_keeps_node_serving K cr mkpeer nd a nd' r cl :
+  connect_wrapper K cr mkpeer nd a = Ok nd' ->
+  (if at_inbound a
+   then handle_outcome K cr (at_cfg a) (at_pres a) (at_registered a) (at_wfail a) (at_script a)
+   else handshake_outcome K cr (at_cfg a) (at_pres a) (at_registered a) (at_wfail a) (at_script a)) = Ok r ->
+  Handshake.res r = Handshake.Refuse cl ->
+  n_reg nd' = n_reg nd /\
+  forall q, q <> at_pid a -> Blocklist.lookup q (n_blocks nd') = Blocklist.lookup q (n_blocks nd).
+Proof.
+  unfold connect_wrapper. intros H Ho Hr. rewrite Ho, Hr in H. inversion H; subst nd'. cbn [n_reg n_blocks].
+  split; [reflexivity|]. intros q Hq. apply block_after_other, Hq.
+Qed.
+
+(* non-vacuity: an inbound request whose signature the library refuses is refused, the remote (transport id 7) is
+   blocked for ever, nothing is registered, and a second, different remote is then treated on its own *)
+Definition ex_attempt (p : Blocklist.pid) : attempt :=
+  {| at_inbound := true; at_pid := p; at_conn := (p, 1); at_closed := false; at_now := 5%Z;
+     at_cfg := {| Handshake.own_type := 2%Z; Handshake.own_token := []; Handshake.own_addr := []; Handshake.own_sig := [] |};
+     at_pres := Handshake.PErr; at_registered := fun _ => false; at_wfail := fun _ => false;
+     at_script := [{| Handshake.as_req := Some ([98], [], [1; 2; 3]); Handshake.as_resp := None |}] |}.
+Example connect_wrappers_example :
+  match connect_run k0 cr0 (fun _ t => {| PeerRegistry.p_addr := 1; PeerRegistry.p_role := t |})
+          {| n_reg := PeerRegistry.init; n_blocks := [] |} [ex_attempt 7; ex_attempt 8] with
+  | Ok nd => (Blocklist.lookup 7 (n_blocks nd), Blocklist.lookup 8 (n_blocks nd), Blocklist.lookup 9 (n_blocks nd))
+  | _ => (None, None, None)
+  end = (Some {| Blocklist.e_start := 5; Blocklist.e_dur := 0 |}, Some {| Blocklist.e_start := 5; Blocklist.e_dur := 0 |}, None).
+Proof. vm_compute. reflexivity. Qed.
